@@ -503,9 +503,12 @@ func (matrix *DenseReal32Matrix) PermuteRows(pi []int) error {
   if n != m {
     return fmt.Errorf("SymmetricPermutation(): matrix is not a square matrix")
   }
+  if len(pi) != n {
+    return fmt.Errorf("PermuteRows(): permutation vector has invalid length")
+  }
   // permute matrix
   for i := 0; i < n; i++ {
-    if pi[i] < 0 || pi[i] > n {
+    if pi[i] < 0 || pi[i] >= n {
       return fmt.Errorf("SymmetricPermutation(): invalid permutation")
     }
     if i != pi[i] && pi[i] > i {
@@ -519,9 +522,12 @@ func (matrix *DenseReal32Matrix) PermuteColumns(pi []int) error {
   if n != m {
     return fmt.Errorf("SymmetricPermutation(): matrix is not a square matrix")
   }
+  if len(pi) != n {
+    return fmt.Errorf("PermuteColumns(): permutation vector has invalid length")
+  }
   // permute matrix
   for i := 0; i < m; i++ {
-    if pi[i] < 0 || pi[i] > n {
+    if pi[i] < 0 || pi[i] >= n {
       return fmt.Errorf("SymmetricPermutation(): invalid permutation")
     }
     if i != pi[i] && pi[i] > i {
@@ -535,8 +541,11 @@ func (matrix *DenseReal32Matrix) SymmetricPermutation(pi []int) error {
   if n != m {
     return fmt.Errorf("SymmetricPermutation(): matrix is not a square matrix")
   }
+  if len(pi) != n {
+    return fmt.Errorf("SymmetricPermutation(): permutation vector has invalid length")
+  }
   for i := 0; i < n; i++ {
-    if pi[i] < 0 || pi[i] > n {
+    if pi[i] < 0 || pi[i] >= n {
       return fmt.Errorf("SymmetricPermutation(): invalid permutation")
     }
     if pi[i] > i {
